@@ -532,7 +532,33 @@ func containerOf(v ssa.Value) ssa.Value {
 	switch x := v.(type) {
 	case *ssa.Field:
 		return containerOf(x.X)
+	case *ssa.Extract:
+		// value picked out of the container by one of the container's own methods
+		// (isMultiReturnCall hands back the single call held in the value list)
+		if c, ok := x.Tuple.(*ssa.Call); ok {
+			if recv := containerReceiver(c); recv != nil {
+				return containerOf(recv)
+			}
+		}
+	case *ssa.Call:
+		if recv := containerReceiver(x); recv != nil {
+			return containerOf(recv)
+		}
 	case *ssa.UnOp:
+		if al, ok := x.X.(*ssa.Alloc); ok {
+			// load of a struct spilled to a local cell that is stored exactly once
+			var stored ssa.Value
+			n := 0
+			for _, r := range *al.Referrers() {
+				if st, ok := r.(*ssa.Store); ok && st.Addr == al {
+					stored = st.Val
+					n++
+				}
+			}
+			if n == 1 {
+				return containerOf(stored)
+			}
+		}
 		if fa, ok := x.X.(*ssa.FieldAddr); ok {
 			if al, ok := fa.X.(*ssa.Alloc); ok {
 				// struct spilled to a local: the stored struct value
@@ -545,6 +571,39 @@ func containerOf(v ssa.Value) ssa.Value {
 		}
 	}
 	return v
+}
+
+// containerReceiver: the call is a method of a plain (non-node) struct of the same package
+// that holds a list of expressions; the receiver is returned.
+func containerReceiver(c *ssa.Call) ssa.Value {
+	callee := c.Call.StaticCallee()
+	if callee == nil || callee.Signature.Recv() == nil || len(c.Call.Args) == 0 {
+		return nil
+	}
+	rt := callee.Signature.Recv().Type()
+	if p, ok := rt.Underlying().(*types.Pointer); ok {
+		rt = p.Elem()
+	}
+	st, ok := rt.Underlying().(*types.Struct)
+	if !ok {
+		return nil
+	}
+	// not a syntax-tree node: nodes have a StatementType method
+	if n, ok := rt.(*types.Named); ok {
+		for i := 0; i < n.NumMethods(); i++ {
+			if n.Method(i).Name() == "StatementType" {
+				return nil
+			}
+		}
+	}
+	for i := 0; i < st.NumFields(); i++ {
+		if sl, ok := st.Field(i).Type().Underlying().(*types.Slice); ok {
+			if _, isIface := sl.Elem().Underlying().(*types.Interface); isIface {
+				return c.Call.Args[0]
+			}
+		}
+	}
+	return nil
 }
 
 // producerGuard: the list comes from a parser function; look for the guard on the
